@@ -1,7 +1,7 @@
 /-
   Proofs/DispatchStep.lean — C19: one program step with an operation of the classes in `goodOp` keeps `AlignedV`.
 -/
-import Deepali.Proofs.DispatchAppend
+import Deepali.Proofs.DispatchReorder
 
 set_option linter.unusedSectionVars false
 
@@ -113,7 +113,12 @@ theorem alignedV_stepOne_image (a0 : Nat) (other : Option SVal) (op : TOp) (f : 
   cases op <;> simp only [goodOp, Bool.false_eq_true] at hgood <;> simp only [stepOne]
   case ew => exact hgen .ew rfl (by rw [torchSem_ew]; exact provLe_refl t)
   case flip dims => exact hgen _ rfl (provLeRes_flip dims t _)
-  case roll s dm => exact hgen _ rfl (provLeRes_roll s dm t _)
+  case roll sh dm =>
+    exact alignedV_imageTF_single_in a0 _ f t g a other rfl hal (provInRes_roll g.src sh dm t _ hal.2.1)
+  case permute pm =>
+    exact alignedV_imageTF_single_in a0 _ f t g a other rfl hal (provInRes_permute g.src pm t _ hal.2.1)
+  case transpose x y =>
+    exact alignedV_imageTF_single_in a0 _ f t g a other rfl hal (provInRes_transpose g.src x y t _ hal.2.1)
   case getitem idx => exact hgen _ rfl (provLeRes_getitem idx t _)
   case iter => exact hgen _ rfl (provLeRes_iter t _)
   case split n dm => exact hgen _ rfl (provLeRes_split n dm t _)
@@ -143,7 +148,20 @@ theorem alignedV_stepOne_image (a0 : Nat) (other : Option SVal) (op : TOp) (f : 
   case narrowF dm st ln =>
     exact alignedV_imageTF_of_stable a0 _ f t g a other (stable_narrowF dm st ln (by simpa using hgood) t _) rfl hal
   case indexSelect dm idx =>
-    exact alignedV_imageTF_of_stable a0 _ f t g a other (stable_indexSelect dm idx (by simpa using hgood) t _) rfl hal
+    refine hgen _ rfl ?_
+    rw [torchSem_indexSelect]
+    cases normDim t.ndim dm with
+    | none => trivial
+    | some d' =>
+      simp only []
+      split
+      · trivial
+      · apply provLe_of_subset
+        intro p hp
+        simp only [] at hp
+        split at hp
+        · exact pick_mem _ _ _ hp
+        · exact hp
   case select dm idx =>
     exact alignedV_imageTF_of_stable a0 _ f t g a other (stable_select dm idx (by simpa using hgood) t _) rfl hal
   case reduce al dims kd =>
@@ -174,27 +192,12 @@ theorem alignedV_stepOne_batch (a0 : Nat) (other : Option SVal) (op : TOp) (f : 
   cases op <;> simp only [goodOp, Bool.false_eq_true] at hgood <;> simp only [stepOne]
   case ew =>
     exact alignedV_batchTF_stable a0 .ew f t gs a other t rfl rfl rfl rfl rfl hal rfl rfl
-  case flip dims =>
-    cases hn : normDims t.ndim dims with
-    | none =>
-      rw [batchTF_err]; exact alignedV_err a0 _
-      simp only [SVal.raw, torchSem_flip, hn]
-    | some ds =>
-      have h0 : ds.contains 0 = false := normDims_pos t.ndim dims ds hn (by
-        intro d hd
-        have := List.all_eq_true.mp hgood d hd
-        simpa using this)
-      exact alignedV_batchTF_stable a0 (.flip dims) f t gs a other ⟨t.shape, t.prov⟩
-        (by simp only [torchSem_flip, hn, h0, Bool.false_eq_true, if_false]) rfl rfl rfl rfl hal rfl rfl
-  case roll s dm =>
-    cases hn : normDim t.ndim dm with
-    | none =>
-      rw [batchTF_err]; exact alignedV_err a0 _
-      simp only [SVal.raw, torchSem_roll, hn]
-    | some k =>
-      have hk : k ≠ 0 := normDim_pos hn (by simpa using hgood)
-      exact alignedV_batchTF_stable a0 (.roll s dm) f t gs a other t
-        (by simp only [torchSem_roll, hn, hk, ne_eq, not_false_eq_true, true_or, if_true]) rfl rfl rfl rfl hal rfl rfl
+  case flip dims => exact alignedV_batchTF_flip a0 dims f t gs a other hal
+  case roll sh dm => exact alignedV_batchTF_roll a0 sh dm f t gs a other hal
+  case permute pm =>
+    exact alignedV_batchTF_nogrid a0 _ f t gs a other rfl rfl rfl rfl (torchSem_permute_not_ts pm t _) hal
+  case transpose x y =>
+    exact alignedV_batchTF_nogrid a0 _ f t gs a other rfl rfl rfl rfl (torchSem_transpose_not_ts x y t _) hal
   case getitem idx => exact alignedV_batchGetitem a0 f a t gs idx (by cases idx <;> simpa [goodOp] using hgood) hal
   case iter => exact alignedV_batchIter a0 f a t gs hal
   case split n dm => exact alignedV_batchTF_split a0 n dm f t gs a other hgood hal
@@ -207,9 +210,7 @@ theorem alignedV_stepOne_batch (a0 : Nat) (other : Option SVal) (op : TOp) (f : 
   case narrowF dm st ln =>
     exact alignedV_batchTF_of_stable a0 _ f t gs a other (stable_narrowF dm st ln (by simpa using hgood) t _)
       rfl rfl rfl rfl hal
-  case indexSelect dm idx =>
-    exact alignedV_batchTF_of_stable a0 _ f t gs a other (stable_indexSelect dm idx (by simpa using hgood) t _)
-      rfl rfl rfl rfl hal
+  case indexSelect dm idx => exact alignedV_batchTF_indexSelect a0 dm idx f t gs a other hal
   case select dm idx =>
     exact alignedV_batchTF_of_stable a0 _ f t gs a other (stable_select dm idx (by simpa using hgood) t _)
       rfl rfl rfl rfl hal
